@@ -120,6 +120,19 @@ impl How {
     pub const PATHS: [How; 3] = [How::New, How::FromVec, How::Collect];
 }
 
+/// `fmt::Write` sink that stops the formatter after `1` bytes (Debug of a tree with a large code
+/// table would otherwise produce megabytes)
+pub struct Limited(pub String, pub usize);
+impl std::fmt::Write for Limited {
+    fn write_str(&mut self, s: &str) -> std::fmt::Result {
+        if self.0.len() + s.len() > self.1 {
+            return Err(std::fmt::Error);
+        }
+        self.0.push_str(s);
+        Ok(())
+    }
+}
+
 pub trait DynIter {
     fn next(&mut self) -> Option<u128>;
     fn next_back(&mut self) -> Option<u128>;
@@ -139,7 +152,7 @@ impl<T: Elem, I: DoubleEndedIterator<Item = T> + ExactSizeIterator> DynIter for 
     }
 }
 
-pub trait DynSeq: Send + Sync {
+pub trait DynSeq {
     fn kind(&self) -> TreeKind;
     fn ty(&self) -> ElemTy;
     fn len(&self) -> usize;
@@ -253,12 +266,10 @@ macro_rules! common_body {
             self
         }
         fn debug_string(&self) -> String {
-            let s = format!("{:?}", self);
-            if s.len() > 4000 {
-                format!("{}...", &s[..4000])
-            } else {
-                s
-            }
+            use std::fmt::Write;
+            let mut w = $crate::trees::Limited(String::new(), 4000);
+            let _ = write!(w, "{:?}", self);
+            w.0
         }
     };
 }
